@@ -51,6 +51,10 @@ def _piece_chars(piece):
             out.append(esc[piece[i + 1]]); i += 2; continue
         if c == "'":
             out.append("'\\''")
+        elif c == '\n':
+            out.append("'\\n'")
+        elif c == '\t':
+            out.append("'\\t'")
         elif ord(c) < 32:
             return None
         else:
